@@ -1,8 +1,8 @@
 (* C07 -- Streams are independent: a stalled stream never blocks the others.
    Theorems about the hand-off transition system (Model/Handoff.v), for every capacity,
    every number of stalled streams and every interleaving. *)
-From WT.Model Require Import Base Handoff.
-From WT.Proofs Require Import HandoffP.
+From WT.Model Require Import Base Handoff Trace.
+From WT.Proofs Require Import HandoffP TraceP.
 
 (* safety: nothing a stalled stream does or fails to do disables the worker, another stream's task or the application *)
 Theorem C07_accept_never_blocked : forall cap s id q, quinn_q s = id :: q -> step cap s WorkerAccept <> None.
@@ -28,6 +28,16 @@ Theorem C07_legacy_refuted :
   forall a ls s', forallb (no_progress_of a) ls = true ->
     run (step_legacy 1) hinit ([PeerOpen a; WorkerAccept] ++ ls) = Some s' -> delivered s' = [].
 Proof. exact legacy_one_stalled_stream_blocks_all. Qed.
+
+(* the same on the validator of OBSERVED traces (suite "trace": the running driver's own event log): in every
+   state it can reach -- any number of streams stuck in their tasks, waiting for a slot or filling the channel --
+   a further stream is accepted and its preamble is taken *)
+Theorem C07_observed_accept_never_blocked :
+  forall cap o id, exited o = false -> mem id (opened (hs o)) = false -> ostep cap o (OAccept id) <> None.
+Proof. exact observed_accept_never_blocked. Qed.
+Theorem C07_observed_preamble_never_blocked :
+  forall cap o id o1, quinn_q (hs o) = [] -> ostep cap o (OAccept id) = Some o1 -> ostep cap o1 (OPreWt id) <> None.
+Proof. exact observed_preamble_never_blocked. Qed.
 
 Example C07_example :
   exists s', run (step 1) hinit [PeerOpen 4; WorkerAccept; PeerOpen 8; WorkerAccept; PeerPreamble 8; TaskSend 8; AppRecv] = Some s'
